@@ -274,7 +274,7 @@ def step(hist):
 
 
 ODD_NAMES = ["xlink:href", "xml:lang", "v-on:click", "x-bind.once", "@click", "2x", "aria-label", "data-a.b_c",
-             "\u00e9", ":is", "_", "on_", "A_B", "x:y_"]
+             "\u00e9", ":is", "_", "on_", "A_B", "x:y_", "viewBox", "viewbox", "data-Id", "data-id", "\u212a", "k", "K"]
 
 
 def fn_odd_live(case):
@@ -318,13 +318,52 @@ def plan(tier):
     return plan0(tier) + plan_odd(tier)
 
 
+def fn_mapping_args(case):
+    """positional arguments that are mappings but not dicts (MappingProxyType, UserDict, ChainMap): whatever Tag() makes of
+    them, consolidate_attrs() followed by Tag(name, attrs, *children) makes the same."""
+    import collections
+    import types
+    from htmltools import Tag, consolidate_attrs
+    kind, pairs, kw = case
+    d = to_dict(pairs)
+    viols = []
+
+    def mk():
+        return {"mappingproxy": types.MappingProxyType(dict(d)), "userdict": collections.UserDict(d),
+                "chainmap": collections.ChainMap(dict(d)), "ordereddict": collections.OrderedDict(d)}[kind]
+
+    def attempt(f):
+        try:
+            return ("ok", f())
+        except TypeError:
+            return ("TypeError", None)
+    direct = attempt(lambda: Tag("div", "c1", mk(), "c2", **to_dict(kw)))
+    def rebuilt_():
+        a, c = consolidate_attrs("c1", mk(), "c2", **to_dict(kw))
+        return Tag("div", a, *c)
+    rebuilt = attempt(rebuilt_)
+    if direct[0] != rebuilt[0] or (direct[0] == "ok" and not (direct[1] == rebuilt[1] and observed(direct[1].attrs) == observed(rebuilt[1].attrs))):
+        viols.append((f"mapping-arg:{kind}", f"Tag('div', 'c1', <{kind}>, 'c2') and the same call via consolidate_attrs() disagree: "
+                      f"{direct[0]} vs {rebuilt[0]}", {"direct": None if direct[1] is None else observed(direct[1].attrs),
+                                                        "rebuilt": None if rebuilt[1] is None else observed(rebuilt[1].attrs)}))
+    if kind == "ordereddict" and direct[0] == "ok":
+        exp = model_call([], [pairs], kw)
+        if observed(direct[1].attrs) != exp:
+            viols.append(("mapping-arg:ordereddict", "a dict subclass is an attribute dict like any other", {"observed": observed(direct[1].attrs)}))
+    return (True, (kind, direct[0]), viols, 2)
+
+
 def plan_odd(tier):
     single = Map(Prod(Const(ODD_NAMES), Const(["v", True, None, ["H", "h"], 3])), lambda p: [list(p)])
     two = Map(Prod(Const(ODD_NAMES), Const(["v"]), Const(ODD_NAMES + ["x"]), Const(["w", ["H", "h"]])),
               lambda p: [[p[0], p[1]], [p[2], p[3]]])
     cs = Alt(Map(Alt(single, two), lambda d: ([d], [])), Map(Prod(single, single), lambda c: ([c[0], c[1]], [])),
              Map(single, lambda k: ([], k)))
+    mp = Prod(Const(["mappingproxy", "userdict", "chainmap", "ordereddict"]),
+              Const([[["class_", "a"]], [["x", "v"], ["x_", ["H", "h"]]], []]), Const([[], [["class_", "k"]]]))
     return [
+        dict(kind="space", name="mapping-typed-positional-arguments", space=mp, fn=fn_mapping_args, execs=2,
+             note="MappingProxyType / UserDict / ChainMap / OrderedDict as positional arguments: Tag() and consolidate_attrs()+Tag() agree"),
         dict(kind="space", name="unusual-attribute-names-calls", space=cs, fn=fn_call,
              note=f"constructor / consolidate_attrs calls over names {ODD_NAMES} (namespaces, framework directives, leading "
                   "digit, non-ASCII, lone underscore): every one is accepted and normalised by the same rule"),
